@@ -81,8 +81,47 @@ def build():
             self.jac = {"f": {"x": array([[2 * (x[0] - 1), 2 * (x[1] - 2)]]), "y": array([[2 * y[0]]])},
                         "g": {"x": array([[-1.0, -1.0]]), "y": array([[0.0]])}}
 
+    class Df(Discipline):
+        n = 0
+
+        def __init__(self):
+            super().__init__("Df")
+            self.io.input_grammar.update_from_names(["x"])
+            self.io.output_grammar.update_from_names(["f"])
+            self.io.input_grammar.defaults.update({"x": array([1.0, 1.0])})
+
+        def _run(self, input_data):
+            Df.n += 1
+            x = input_data["x"]
+            crash_point(x)
+            emit(ev="exec_end", p=pt(x))
+            return {"f": array([(x[0] - 1) ** 2 + (x[1] - 2) ** 2])}
+
+    class Dg(Discipline):
+        """Raises ValueError at the points listed in CFG['fail_g'] (a DOE skips such a sample)."""
+
+        n = 0
+
+        def __init__(self):
+            super().__init__("Dg")
+            self.io.input_grammar.update_from_names(["x"])
+            self.io.output_grammar.update_from_names(["g"])
+            self.io.input_grammar.defaults.update({"x": array([1.0, 1.0])})
+
+        def _run(self, input_data):
+            Dg.n += 1
+            x = input_data["x"]
+            crash_point(x)
+            emit(ev="exec_end", p=pt(x))
+            if pt(x) in CFG.get("fail_g", []):
+                emit(ev="exec_failed", p=pt(x), outs=["g"])
+                raise ValueError("constraint not computable here")
+            return {"g": array([1 - x[0] - x[1]])}
+
     ds = DesignSpace()
     ds.add_variable("x", 2, lower_bound=-4.0, upper_bound=4.0, value=array([1.0, 1.0]))
+    if CFG.get("system") == "uncoupled":
+        return [Df(), Dg()], ds, (Df, Dg)
     return [D1(), D2()], ds, (D1, D2)
 
 
@@ -110,7 +149,7 @@ def main():
             super()._execute_backup_callback(x_vect)
             emit(ev="export", file=file_content(CFG["path"]))
 
-    sc = Sc(discs, "f", ds, formulation_name="MDF")
+    sc = Sc(discs, "f", ds, formulation_name=CFG.get("formulation", "MDF"))
     sc.add_constraint("g", constraint_type="ineq")
     problem = sc.formulation.optimization_problem
     db = problem.database
